@@ -53,12 +53,25 @@ def handle (args : List String) (impl : List String) : String :=
       else if absQ (a - b) ≤ 2 * ulp15 m then "ok"   -- half a unit of text rounding on each side + recomputation
       else s!"bad {cls}: values differ beyond the 15th significant digit after save/reload"
     | _, _ => "bad-op"
+  -- f load <class> <outcome> <mutation> <detail> => [file tokens when abnormal]
+  | ["load", cls, outcome, kind, detail] =>
+    if outcome = "refused" then "ok refused"
+    else if outcome = "loaded" then "ok loaded"
+    else if outcome = "unusable" then s!"bad {cls}: object returned for a damaged file is not usable ({detail}) mutation={kind}"
+    else s!"bad {cls}: loader {outcome} on a damaged file ({detail}) mutation={kind}"
   | ["same", cls, what, a, b] => if a = b then "ok" else s!"bad {cls}: {what} differs after save/reload"
   -- f load <expect 0/1> => <file tokens>: model reader accepts / rejects like the library (C09)
   | ["dbload", accepted] =>
     let file := splitLines impl
+    -- a file cut right after its tag: the library tests the stream state (`Db` then end of file is
+    -- refused, `Db` + line break is accepted), which the token protocol cannot tell apart
+    if (file.map List.length).sum ≤ 1 then "skip nothing-after-the-tag" else
     match deserDb file with
-    | some _ => if accepted = "1" then "ok" else "diff model accepts a file the library rejects"
+    | some d =>
+      -- the library also bounds the announced counts by the number of bytes left (not modelled):
+      -- only a table without column can announce more samples than the file holds
+      if d.ncol = 0 && d.nech > 0 then "skip byte-bound-not-modelled"
+      else if accepted = "1" then "ok" else "diff model accepts a file the library rejects"
     | none => if accepted = "0" then "ok" else "diff model rejects a file the library accepts"
   | _ => "bad-op"
 
